@@ -143,7 +143,7 @@ CLAIMS = {
     'C13': dict(
         level='proof',
         technique='Coq: general rejection theorems (all shapes) + kernel evaluation of the COMPLETE outcome tree of the reset model for shipped and small parameter sets (finite instances, bound in the statement) + full-tree comparison with the code',
-        text='Coq theorems (Props/C13.v): GENERAL (no bound on the shape): every outcome of `empty` (all flags), of `dynamic_obstacles` (any requested number: ValueError or exactly that many) and of `teleport` (exactly two telepods of one colour, never an error) is a well-formed state -- wall boundary, one exit, agent on an inner floor cell -- for every shape >= 4x4 and every resolution of the random draws (Lemmas/C13W.v: exact characterisation of the walled room, sampling without replacement, placement on distinct floor cells); for each reset function the parameter conditions under which it raises ValueError whatever the randomness '
+        text='Coq theorems (Props/C13.v): GENERAL (no bound on the shape): every outcome of `empty` (all flags), of `dynamic_obstacles` (any requested number: ValueError or exactly that many), of `teleport` (exactly two telepods of one colour, never an error) and of `keydoor` (locked door in a full wall column, key and agent left of it, exit right of it) is a well-formed state -- wall boundary, one exit, agent on an inner floor cell -- for every shape >= 4x4 and every resolution of the random draws (Lemmas/C13W.v: exact characterisation of the walled room, sampling without replacement, placement on distinct floor cells); for each reset function the parameter conditions under which it raises ValueError whatever the randomness '
              '(all shapes); draws raise only ValueError; and, by kernel evaluation (vm_compute) of `leaves`, for 13 of the 21 shipped parameter sets '
              '(regenerated from the YAML files with numpy\'s linspace splits on every run) and 46 small parameter sets of all eight functions: EVERY '
              'resolution of every random choice yields a state satisfying the property\'s statement (wf_check) or ValueError.  These are proofs for the '
